@@ -512,7 +512,7 @@ Proof. unfold gbad. destruct (g_unreg g), (g_newer g), (g_endov g); cbn; intros;
 Lemma core_step_other s o g th e s' :
   Rc cs s o -> Oinv o -> Minv s -> Rest s o g ->
   step_core s th e = Some s' -> gbad (g_step o g (th, e)) = false ->
-  (forall H : step_own s th e = Some s', False) ->
+  (step_own s th e = Some s' -> Rest s' (obs_step cs o (th, e)) (g_step o g (th, e))) ->
   Rest s' (obs_step cs o (th, e)) (g_step o g (th, e)).
 Proof.
   intros HR HO M HRest H Hg Hnown. pose proof HRest as (L & G & K).
@@ -631,5 +631,167 @@ Proof.
     + intros i x r' -> Hx Hr'.
       destruct (rc_oi _ _ _ _ HR Hx) as (xo & Exo & B & C). destruct (rc_on _ _ _ _ HR C) as (r & Er).
       rewrite <- B in Er. destruct (gain_probe cs o th i xo r Exo Er) as (r2 & A1 & A2). rewrite B in A1. congruence.
-  - exfalso. eauto.
+  - apply Hnown. exact Hk.
+Qed.
+
+Lemma in_removeN a k l : In a l -> a <> k -> In a (removeN k l).
+Proof. intros H Hne. unfold removeN. apply filter_In. split; [exact H|]. apply negb_true_iff. now apply N.eqb_neq. Qed.
+
+Lemma thread_lookup_none t k : thread_lookup t k = Some None -> lk t = LDone2 k None.
+Proof.
+  unfold thread_lookup. destruct (lk t) as [|k1 [j|]|k1|k1 [j|]|k1 [j|]]; try discriminate;
+  destruct (N.eqb_spec k1 k); try discriminate; intros; subst; reflexivity.
+Qed.
+
+Lemma wf_nodup n c : wf_confs cs = true -> get n cs = Some c -> nodupN (map fst (deps c)) = true.
+Proof.
+  intros Hwf Hn. unfold wf_confs in Hwf. rewrite forallb_forall in Hwf. apply get_in in Hn. exact (Hwf _ Hn).
+Qed.
+
+Lemma core_step_own s o g th e s' :
+  wf_confs cs = true -> Rc cs s o -> Oinv o -> Refreshed o -> Minv s -> Rest s o g ->
+  step_own s th e = Some s' -> gbad (g_step o g (th, e)) = false ->
+  Rest s' (obs_step cs o (th, e)) (g_step o g (th, e)).
+Proof.
+  intros Hwf HR HO HF M (L & G & K) H Hg.
+  destruct (not_reg_ole o th e g (own_not_reg _ _ _ _ H)) as [OL Hp].
+  destruct (step_own_eff _ _ _ _ H) as (i & x & x' & Ht & Hx & Hx' & Hn & Hc & Hd & Tr & Ho & _).
+  destruct (rc_oi _ _ _ _ HR Hx) as (xo & Exo & Bn & Cc).
+  assert (Hoth : get th (o_th o) = Some i) by (rewrite <- (rc_th _ _ _ HR); exact Ht).
+  split; [|split].
+  - eapply Rl_frame; [exact L| |exact OL]. eapply step_own_frL; [exact H|]. intros i0 -> Hti.
+    assert (i0 = i) by congruence. subst i0. apply (gain_started cs o th i xo Hoth Exo).
+  - assert (Ho' : forall j, j <> i -> match get j (insts s) with
+                        | Some x => exists x', get j (insts s') = Some x' /\ cf x' = cf x /\ pc_ok x x'
+                        | None => get j (insts s') = None end).
+    { intros j Hj. rewrite (Ho j Hj). destruct (get j (insts s)); eauto using pc_ok_refl. }
+    assert (Hnd : nodupN (map fst (deps (cf x))) = true) by (eapply wf_nodup; eauto).
+    destruct e; try (eapply Rg_frame; [exact G|eapply own_other_frM; [exact H|intros; discriminate|intros; discriminate]|exact OL]).
+    + (* EDepWait *)
+      destruct Tr as (todo & c & P1 & P2 & P3 & P4).
+      assert (Hrem : remaining (pc x) = Some todo) by now rewrite P1.
+      eapply (Rg_upd _ s s' o _ i G OL Ho').
+      * intros x2 xo' l Hx2 Hxo' Hr k0 c0 Hin Hnl. assert (x2 = x') by congruence. subst x2.
+        destruct (ole_inv _ _ _ _ _ OL Hxo') as (xo2 & E2 & LE). assert (xo2 = xo) by congruence. subst xo2.
+        pose proof LE as (_ & Li & _). rewrite Li. rewrite Hc in Hin. rewrite P4 in Hr.
+        destruct (N.eqb_spec k0 k).
+        -- subst k0. destruct found as [j|]; cbn in Hr; injection Hr as <-; [exfalso; apply Hnl; now left|].
+           left. intros j yo' Hj Hnm Hlt.
+           pose proof (rk_lk _ _ _ K th i xo Ht Exo) as Q. rewrite (thread_lookup_none _ _ P3) in Q. cbn in Q.
+           apply Q. eapply older_inv; [exact OL|]. exists j, yo'. auto.
+        -- eapply Gate_mono; [exact OL|]. eapply (rg_gate _ _ G i x xo todo); eauto.
+           intros Hin2. apply Hnl. destruct found as [j|]; cbn in Hr; injection Hr as <-; [right|]; now apply in_removeN.
+      * intros x2 xo' k1 c1 j1 todo1 Hx2 Hxo' Hpc. assert (x2 = x') by congruence. subst x2.
+        destruct (ole_inv _ _ _ _ _ OL Hxo') as (xo2 & E2 & LE). assert (xo2 = xo) by congruence. subst xo2.
+        pose proof LE as (_ & Li & _). rewrite Li. rewrite P4 in Hpc.
+        destruct found as [j|]; [|discriminate Hpc]. injection Hpc as <- <- <- <-.
+        eapply blocked_mono; [exact OL|].
+        destruct (thread_lookup_ok _ _ _ _ (mi_lk _ M th) P3) as (y & Hy & Hyn).
+        destruct (rc_oi _ _ _ _ HR Hy) as (yo & Eyo & Byn & _).
+        destruct (gbad_parts _ Hg) as (_ & Q & _). cbn in Q. rewrite Hoth in Q. cbn in Q.
+        unfold oi_get in Q. rewrite Exo, Eyo in Q. apply orb_false_iff in Q. destruct Q as [_ Q].
+        apply andb_false_iff in Q. destruct Q as [Q|Q].
+        -- left. apply negb_false_iff, Nat.ltb_lt in Q. exists yo. repeat split; auto. congruence.
+        -- right. intros j' yo2 Hj' Hnm Hlt. unfold has_older in Q.
+           assert (existsb (fun y0 => N.eqb (o_nm y0) k && Nat.ltb (o_idx y0) (o_idx xo)) (vals (oi o)) = true); [|congruence].
+           apply existsb_exists. exists yo2. split; [eapply get_in_vals; eauto|].
+           apply andb_true_iff. split; [now apply N.eqb_eq|now apply Nat.ltb_lt].
+    + (* EDepDone *)
+      destruct Tr as (c & j & todo & y & P1 & P2 & P3 & P4 & P5).
+      assert (Hrem : remaining (pc x) = Some (k :: todo)) by now rewrite P1.
+      destruct (mi_blocked _ M i x k c j todo Hx P1) as [_ Hdc].
+      eapply (Rg_upd _ s s' o _ i G OL Ho').
+      * intros x2 xo' l Hx2 Hxo' Hr k0 c0 Hin Hnl. assert (x2 = x') by congruence. subst x2.
+        destruct (ole_inv _ _ _ _ _ OL Hxo') as (xo2 & E2 & LE). assert (xo2 = xo) by congruence. subst xo2.
+        pose proof LE as (_ & Li & _). rewrite Li. rewrite Hc in Hin. rewrite P5 in Hr.
+        destruct ok; [|discriminate Hr]. cbn in Hr. injection Hr as <-.
+        eapply Gate_mono; [exact OL|].
+        destruct (N.eqb_spec k0 k).
+        -- subst k0. assert (c0 = c) by (unfold dep_cond in Hdc; eapply dep_cond_unique; eauto). subst c0.
+           destruct (rg_blocked _ _ G i x xo k c j todo Hx Exo P1) as [(yo & A & B & C)|Q].
+           ++ right. exists j, yo. repeat split; auto. eapply met_of_latch; eauto.
+           ++ left. exact Q.
+        -- eapply (rg_gate _ _ G i x xo (k :: todo)); eauto. intros [Q|Q]; [congruence|contradiction].
+      * intros x2 xo' k1 c1 j1 todo1 Hx2 Hxo' Hpc. assert (x2 = x') by congruence. subst x2.
+        rewrite P5 in Hpc. destruct ok; discriminate Hpc.
+  - eapply Rk_frame; [exact K|eapply step_own_frM2; eauto|exact OL|exact Hp].
+Qed.
+
+(* ---- the simulation relation ------------------------------------------------------------------------------------ *)
+Record R (s : sys) (o : obs) (g : gst) : Prop := mkR {
+  r_core : Rc cs s o; r_oinv : Oinv o; r_refr : Refreshed o; r_minv : Minv s;
+  r_rest : gbad g = false -> Rest s o g }.
+
+Lemma R_init ord : R (init cs ord) (obs0 cs) g0.
+Proof.
+  constructor.
+  - apply Rc_init.
+  - apply Oinv_obs0.
+  - intros j y. cbn. discriminate.
+  - apply Minv_init.
+  - intros _. split; [|split]; constructor; cbn; try discriminate.
+    + intros th. exact I.
+    + intros n v r Hv _ Hh. rewrite (get_map_fst init_vis cs n) in Hv. destruct (get n cs) as [c|]; [|discriminate].
+      cbn in Hv. injection Hv as <-. cbn in Hh. discriminate.
+Qed.
+
+Lemma R_step s o g th e s' : wf_confs cs = true -> R s o g -> step s (th, e) = Some s' ->
+  R s' (obs_step cs o (th, e)) (g_step o g (th, e)) /\ (mon_C01 cs o (th, e) = true \/ gbad g = true).
+Proof.
+  intros Hwf [HR HO HF M HRest] H.
+  assert (Flush : gbad g = false ->
+            Rc cs (flush th s) o /\ Minv (flush th s) /\ Rest (flush th s) o g).
+  { intros Hg0. destruct (HRest Hg0) as (L & G & K). split; [|split; [|split; [|split]]].
+    - eapply Rc_sys_same; eauto using sys_same_flush.
+    - eapply Minv_frame; [exact M|apply frM_frM2, flush_frM].
+    - eapply (Rl_frame EResume); [exact L|apply flush_frL; apply (rl_pend _ _ L)|apply ole_refl].
+    - eapply (Rg_frame EResume); [exact G|apply flush_frM|apply ole_refl].
+    - eapply (Rk_frame EResume); [exact K|apply frM_frM2, flush_frM|apply ole_refl|reflexivity]. }
+  split.
+  - constructor.
+    + eapply Rc_step; eauto.
+    + apply Oinv_step; auto.
+    + apply refreshed_step.
+    + eapply Minv_step; eauto.
+    + intros Hg.
+      assert (Hg0 : gbad g = false).
+      { destruct (gbad g) eqn:E; [|reflexivity]. rewrite (gbad_mono o g (th, e) E) in Hg. discriminate. }
+      destruct (Flush Hg0) as (HR0 & M0 & Rest0). unfold step in H. cbn [fst snd] in H.
+      eapply core_step_other; eauto. intros Hown. eapply core_step_own; eauto.
+  - destruct (gbad g) eqn:Hg0; [now right|left].
+    destruct e; try reflexivity. destruct ok; [|reflexivity].
+    destruct (Flush eq_refl) as (HR0 & M0 & (L0 & G0 & K0)). unfold step in H. cbn [fst snd] in H.
+    change (step_core (flush th s) th (ELaunch true)) with (step_own (flush th s) th (ELaunch true)) in H.
+    destruct (step_own_eff _ _ _ _ H) as (i & x & x' & Ht & Hx & _ & _ & _ & _ & Tr & _).
+    cbn in Tr. destruct Tr as [_ Hpc]. specialize (Hpc eq_refl).
+    destruct (rc_oi _ _ _ _ HR0 Hx) as (xo & Exo & Bn & Cc).
+    eapply mon_C01_of_gate; eauto.
+    + rewrite <- (rc_th _ _ _ HR0). exact Ht.
+    + intros k c Hin. unfold conf_of in Hin. rewrite Bn, Cc in Hin.
+      eapply (rg_gate _ _ G0 i x xo []); eauto. now rewrite Hpc.
+Qed.
+
+Lemma gbad_fold evs : forall o g, gbad g = true -> gbad (snd (fold_left (og_step cs) evs (o, g))) = true.
+Proof.
+  induction evs as [|a r IH]; intros o g H; cbn; [exact H|]. apply IH. now apply gbad_mono.
+Qed.
+
+Lemma sim_run_og : forall evs s o g k s', wf_confs cs = true -> R s o g -> accept s evs = Some s' ->
+  gbad (snd (fold_left (og_step cs) evs (o, g))) = false -> mon_run cs (mon_C01 cs) o evs k = None.
+Proof.
+  induction evs as [|[th e] evs IH]; intros s o g k s' Hwf HRel Hacc Hg; [reflexivity|].
+  cbn in Hacc. destruct (step s (th, e)) as [s1|] eqn:Es; [|discriminate].
+  destruct (R_step _ _ _ _ _ _ Hwf HRel Es) as [HR1 Hm]. cbn [mon_run fold_left] in *.
+  destruct Hm as [Hm|Hm].
+  - rewrite Hm. eapply IH; eauto.
+  - unfold og_step in Hg at 2. cbn [fst snd] in Hg. rewrite gbad_fold in Hg; [discriminate|]. now apply gbad_mono.
+Qed.
+End Main.
+
+Theorem C01_main_partial_lemma : forall cs ord evs s,
+  wf_confs cs = true -> accept (init cs ord) evs = Some s -> sched_ok_C01 cs evs = true -> holds_C01 cs evs = true.
+Proof.
+  intros cs ord evs s Hwf Hacc Hs. unfold holds_C01, holds.
+  rewrite (sim_run_og cs evs (init cs ord) (obs0 cs) g0 0 s Hwf (R_init cs ord) Hacc); [reflexivity|].
+  unfold sched_ok_C01, og_final in Hs. now apply negb_true_iff in Hs.
 Qed.
